@@ -4,6 +4,7 @@
 package env
 
 import (
+	"context"
 	"database/sql"
 	"fmt"
 	"os"
@@ -15,6 +16,7 @@ import (
 	_ "github.com/mattn/go-sqlite3"
 	"gorm.io/driver/sqlite"
 	"gorm.io/gorm"
+	"gorm.io/gorm/clause"
 	"gorm.io/gorm/logger"
 	"gorm.io/gorm/schema"
 
@@ -25,7 +27,41 @@ import (
 
 // Dialector is gorm.io/driver/sqlite's dialector with SavePoint/RollbackTo that
 // report their error (v1.5.6 swallows it; mysql/postgres dialectors report it).
-type Dialector struct{ sqlite.Dialector }
+type Dialector struct {
+	sqlite.Dialector
+	// Yield, when set, makes SQL generation a sequence of scheduling points: the
+	// dialector is called back for every bound variable and every quoted
+	// identifier while a statement is being built.
+	Yield func(point string)
+}
+
+func (d Dialector) BindVarTo(w clause.Writer, stmt *gorm.Statement, v interface{}) {
+	if d.Yield != nil {
+		d.Yield("dialector:bindvar")
+	}
+	d.Dialector.BindVarTo(w, stmt, v)
+}
+
+func (d Dialector) QuoteTo(w clause.Writer, str string) {
+	if d.Yield != nil {
+		d.Yield("dialector:quote")
+	}
+	d.Dialector.QuoteTo(w, str)
+}
+
+// YieldLogger is a silent logger whose Trace (called by gorm after every
+// operation, with the statement still in hand) is a scheduling point.
+type YieldLogger struct {
+	logger.Interface
+	Yield func(point string)
+}
+
+func (l YieldLogger) LogMode(logger.LogLevel) logger.Interface { return l }
+func (l YieldLogger) Trace(ctx context.Context, begin time.Time, fc func() (string, int64), err error) {
+	if l.Yield != nil {
+		l.Yield("logger:trace")
+	}
+}
 
 func (d Dialector) SavePoint(tx *gorm.DB, name string) error {
 	return tx.Exec("SAVEPOINT " + name).Error
@@ -66,6 +102,8 @@ type Options struct {
 	WrapPool func(*sql.DB, *simdrv.Sim) gorm.ConnPool
 	Namer    schema.Namer
 	Logger   logger.Interface
+	// Yield makes the dialector callbacks and the logger scheduling points (multi-task runs).
+	Yield func(point string)
 }
 
 type Env struct {
@@ -180,6 +218,9 @@ func Open(o Options) (*Env, error) {
 	lg := o.Logger
 	if lg == nil {
 		lg = logger.Discard
+		if o.Yield != nil {
+			lg = YieldLogger{Interface: logger.Discard, Yield: o.Yield}
+		}
 	}
 	cfg := &gorm.Config{
 		PrepareStmt:              o.PrepareStmt,
@@ -192,7 +233,7 @@ func Open(o Options) (*Env, error) {
 	if o.Namer != nil {
 		cfg.NamingStrategy = o.Namer
 	}
-	e.DB, err = gorm.Open(Dialector{sqlite.Dialector{Conn: pool}}, cfg)
+	e.DB, err = gorm.Open(Dialector{Dialector: sqlite.Dialector{Conn: pool}, Yield: o.Yield}, cfg)
 	if err != nil {
 		e.Close()
 		return nil, fmt.Errorf("gorm.Open: %w", err)
